@@ -108,6 +108,18 @@ def run(ctx):
              U.phas(uh.node, "{'last_heartbeat': ___.utc_now_sec()}"),
              ctx.construct(uh),
         'a heartbeat does not set last_heartbeat to now', ctx.loc(uh))
+    # heartbeats arrive under the executor's project-less context: the
+    # update must not be tenant-scoped (it would match no row of a
+    # project-owned action when authentication is enabled)
+    r1.check(U.phas(uh.node, 'session.query(models.ActionExecution)') and
+             not any(isinstance(x, ast.Call) and
+                     U.call_name(x) in ('_secure_query', 'model_query')
+                     for x in own_nodes(uh.node)),
+             ctx.construct(uh, extra='not tenant-scoped'),
+             'the heartbeat update goes through the tenant-scoped query: '
+             'heartbeats sent by the executor (no project in its context) '
+             'are silently dropped and live actions are expired',
+             ctx.loc(uh))
     r1.check(U.phas(uh.node, '___.filter(___.ActionExecution.id == %s)'
                     '.update(___)' % uh.params[0]),
              ctx.construct(uh, extra='the reported action only'),
@@ -350,6 +362,18 @@ def run(ctx):
                  ctx.construct(ic, extra='recovery conditions'),
                  'recovery is not limited to old RUNNING tasks whose '
                  'children have all finished', ctx.loc(ic, c))
+    # every RUNNING task is examined: the scan loop is only left at its end
+    # (tasks come ordered by id, not by age: a fresh task must not end the
+    # scan before a stuck one behind it is seen)
+    sl = [x for x in own_nodes(ic.node) if isinstance(x, ast.For) and
+          any(c is rec[0][1] for b in x.body for c in ast.walk(b))]
+    early = [y for lp in sl for b in lp.body for y in ast.walk(b)
+             if isinstance(y, (ast.Break, ast.Return))]
+    r4.check(len(sl) >= 1 and not early,
+             ctx.construct(ic, extra='all RUNNING tasks scanned'),
+             'the scan over the RUNNING tasks can be left early (%s): a '
+             'recently updated task that sorts first hides a stuck one'
+             % [norm(y) for y in early], ctx.loc(ic))
     af = [x for x in own_nodes(ic.node) if isinstance(x, ast.Assign) and
           dotted(x.targets[0]) == 'all_finished']
     r4.check(bool(af) and U.call_name(af[0].value) == 'all' and
